@@ -11,10 +11,10 @@ import (
 // the same struct specification.
 
 type Program struct {
-	Pkg     string            // package (directory) name inside the scratch module
-	Files   map[string][]byte // user sources (types.go) - gombok input
-	Harness map[string][]byte // harness files added after generation
-	Desc    string
+	Pkg      string            // package (directory) name inside the scratch module
+	Files    map[string][]byte // user sources (types.go) - gombok input
+	Harness  map[string][]byte // harness files added after generation
+	Desc     string
 	NoGombok bool // support package: written as is, the generator is not run on it
 }
 
@@ -66,7 +66,8 @@ type structSpec struct {
 	fields   []fieldSpec
 	json     bool
 	labelled bool
-	generic  bool // one type parameter T (any), instantiated with int in the harness
+	generic  bool   // one type parameter T, instantiated with int in the harness
+	constr   string // constraint of T ("" = any): comparable, a union, a named constraint interface
 }
 
 func (s structSpec) typ() string {
@@ -105,7 +106,11 @@ func (s structSpec) source() string {
 	}
 	tp := ""
 	if s.generic {
-		tp = "[T any]"
+		c := s.constr
+		if c == "" {
+			c = "any"
+		}
+		tp = "[T " + c + "]"
 	}
 	sb.WriteString(fmt.Sprintf("type %s%s struct {\n", s.name, tp))
 	for _, f := range s.fields {
@@ -414,7 +419,7 @@ func (s structSpec) harness(pkg string) string {
 
 func mkProgram(pkg string, structs []structSpec, desc string) Program {
 	var src strings.Builder
-	src.WriteString("package " + pkg + "\n\nimport \"github.com/csgura/fp\"\n\n//go:generate gombok\n\nvar _ fp.Unit\n\ntype MyInt int\n\ntype EmbP struct {\n\tp1 int\n\tp2 string\n}\n\ntype EmbQ struct {\n\tQ1 int\n}\n\ntype EmbE struct{}\n\n")
+	src.WriteString("package " + pkg + "\n\nimport \"github.com/csgura/fp\"\n\n//go:generate gombok\n\nvar _ fp.Unit\n\ntype MyInt int\n\ntype Num interface {\n\t~int | ~int64\n}\n\ntype EmbP struct {\n\tp1 int\n\tp2 string\n}\n\ntype EmbQ struct {\n\tQ1 int\n}\n\ntype EmbE struct{}\n\n")
 	for _, s := range structs {
 		src.WriteString(s.source())
 	}
@@ -447,6 +452,9 @@ func fixedPrograms() [][]structSpec {
 		{{name: "Emb", fields: []fieldSpec{{"title", kString, ""}, {"EmbP", kEmbedPriv, ""}, {"EmbQ", kEmbedPub, ""}, {"EmbE", kEmbedEmpty, ""}, {"n", kInt, ""}}}},
 		{{name: "EmbJson", fields: []fieldSpec{{"EmbQ", kEmbedPub, ""}, {"k", kInt, ""}, {"EmbP", kEmbedPriv, ""}}, json: true}},
 		{{name: "GenRefs", fields: []fieldSpec{{"v", kTypeParam, ""}, {"p", kPtr, ""}, {"w", kTypeParam, ""}}, generic: true}},
+		{{name: "GenCmp", fields: []fieldSpec{{"x", kTypeParam, ""}, {"o", kOption, ""}}, generic: true, constr: "comparable"}},
+		{{name: "GenUnion", fields: []fieldSpec{{"x", kTypeParam, ""}, {"n", kInt, ""}}, generic: true, constr: "~int | ~int64"}},
+		{{name: "GenNamed", fields: []fieldSpec{{"x", kTypeParam, ""}, {"s", kSlice, ""}}, generic: true, constr: "Num"}},
 	}
 }
 
@@ -514,6 +522,7 @@ func randomStruct(r *rand.Rand, name string) structSpec {
 		s.fields = append(s.fields, fieldSpec{"z", kInt, ""})
 	}
 	if generic {
+		s.constr = []string{"", "", "comparable", "~int | ~int64", "Num"}[r.Intn(5)]
 		has := false
 		for _, f := range s.fields {
 			if f.kind == kTypeParam {
